@@ -470,6 +470,33 @@ pub fn run(args: &Args) {
                 }
             }
         }
+        // audit: fresh connections of both families scrape every torrent of the case on its own:
+        // what the swarm workers hold at the end must be what the reference tracker holds
+        for (ci, v6) in [(0usize, false), (3usize, true)] {
+            for h in pool.iter() {
+                let mut stream = connect(v6, port);
+                let text = format!("GET /scrape?info_hash={} HTTP/1.1\r\nHost: t\r\n\r\n", pct(h)).into_bytes();
+                let (raw, closed) = exchange(&mut stream, &text, &[], true);
+                let reply = if raw.is_empty() {
+                    "None".to_string()
+                } else {
+                    let body_start = raw.windows(4).position(|w| w == b"\r\n\r\n").map(|p| p + 4).unwrap_or(raw.len());
+                    match reply_term(&raw[body_start..]) {
+                        Some(t) => format!("(Some ({}, {}))", cq::hex(&raw), t),
+                        None => format!("(Some ({}, YFailure \"\"))", cq::hex(&raw)),
+                    }
+                };
+                // a connection number of its own (100 + ...): a fresh response buffer in the model
+                items.push(format!(
+                    "YStep {} (Some (HScrape {} [{}])) {} {}",
+                    cq::n(100 + ci * 10 + (h[0] as usize)),
+                    cq::b(v6),
+                    cq::id20(h),
+                    reply,
+                    cq::b(closed)
+                ));
+            }
+        }
     });
     let mut ks: Vec<_> = kinds.into_iter().collect();
     ks.sort();
